@@ -5,7 +5,7 @@
 From Coq Require Import List ZArith Lia Bool ZifyBool.
 From LW Require Import Base.Bytes Gen.Consts Gen.Rtap Gen.Layout
   Model.TagIter Spec.TagSpec Model.Radiotap Spec.RadiotapSpec Model.Frame Spec.FrameSpec Model.CRC Spec.CRCSpec
-  Model.Eapol Spec.EapolSpec Model.Security Model.Mgmt Spec.MgmtSpec
+  Model.Eapol Spec.EapolSpec Model.Security Spec.SecuritySpec Model.Mgmt Spec.MgmtSpec
   Proofs.TagIterProofs Proofs.RadiotapProofs Proofs.FrameProofs Proofs.FrameCompose Proofs.CRCProofs
   Proofs.EapolProofs Proofs.MgmtProofs.
 Import ListNotations.
@@ -308,6 +308,54 @@ Proof.
   intros buf rt f Hwf Hg. apply frame_ok_parsers. eapply classified_frame_ok; eassumption.
 Qed.
 
+(* ---------------------------------------------------------------- C01: the element decoders called directly *)
+(* libwifi_get_rsn_info / libwifi_get_wpa_info / libwifi_bss_handle_msft_tag are public: a caller may hand them any
+   byte range.  Since finding F45 each of them checks the length of the range before its first read, so these hold for
+   EVERY length (0..5 / 0..9 / 0..3 included); rd is arbitrary (it may fault) outside buf. *)
+Lemma slice_whole {A} (l : list A) : slice 0 (zlen l) l = l.
+Proof. unfold slice, zfirstn, zskipn, zlen. cbn [Z.to_nat skipn]. rewrite Nat2Z.id. apply firstn_all. Qed.
+
+Lemma rsn_decoder_whole : forall buf rd, wfbytes buf -> agrees rd buf ->
+  get_rsn_info rd 0 (zlen buf) =
+    Done (match s_rsn_decode buf with Some i => Ok i | None => Err (- Security.EINVAL) end).
+Proof.
+  intros buf rd Hwf Hag.
+  pose proof (rsn_decode_exact buf rd 0 (zlen buf) Hwf Hag ltac:(lia) (zlen_nonneg buf) ltac:(lia)) as H.
+  rewrite slice_whole in H. exact H.
+Qed.
+
+(* called directly, the range is what follows the vendor header *)
+Lemma wpa_decoder_whole : forall buf rd, wfbytes buf -> agrees rd buf ->
+  get_wpa_info rd 0 (zlen buf) =
+    Done (match s_wpa_decode_h 0 buf with Some i => Ok i | None => Err (- Security.EINVAL) end).
+Proof.
+  intros buf rd Hwf Hag.
+  pose proof (wpa_decode_exact_h 0 buf rd 0 (zlen buf) Hwf Hag ltac:(lia) ltac:(lia) (zlen_nonneg buf) ltac:(lia)) as H.
+  rewrite slice_whole in H. exact H.
+Qed.
+
+Lemma decoders_direct_safe : forall buf rd, wfbytes buf -> agrees rd buf ->
+  (exists o, get_rsn_info rd 0 (zlen buf) = Done o /\ negative_or_ok o) /\
+  (exists o, get_wpa_info rd 0 (zlen buf) = Done o /\ negative_or_ok o) /\
+  (forall b, exists o, handle_msft rd b 0 (zlen buf) = Done o /\ negative_or_ok o).
+Proof.
+  intros buf rd Hwf Hag. pose proof (zlen_nonneg buf) as Hn. split; [|split].
+  - eexists. split; [apply rsn_decoder_whole; assumption|].
+    destruct (s_rsn_decode buf); [exact I|reflexivity].
+  - eexists. split; [apply wpa_decoder_whole; assumption|].
+    destruct (s_wpa_decode_h 0 buf); [exact I|reflexivity].
+  - intros b. unfold handle_msft.
+    change sizeof_libwifi_tag_vendor_header with 4. change suite_len with 4.
+    destruct (zlen buf <? 4) eqn:C4; [eexists; split; reflexivity|].
+    rewrite Hag by lia. cbn [bind].
+    destruct (znth buf (0 + 3) =? c_MICROSOFT_OUI_TYPE_WPA).
+    + destruct (zlen buf <? 4 + 2 + 4) eqn:C10; [eexists; split; reflexivity|].
+      pose proof (wpa_decode_exact buf rd 0 (zlen buf) Hwf Hag ltac:(lia) Hn ltac:(lia)) as H.
+      change (0 + 4) with 4 in *. change (0 + zlen buf) with (zlen buf) in *. rewrite H. cbn [bind].
+      destruct (s_wpa_decode _); eexists; (split; [reflexivity|]); [exact I|reflexivity].
+    + destruct (_ =? c_MICROSOFT_OUI_TYPE_WPS); eexists; (split; [reflexivity|exact I]).
+Qed.
+
 (* ---------------------------------------------------------------- C13 *)
 Lemma iteration_env_indep : forall buf env1 env2, wfbytes buf ->
   iterate (rd_env buf env1) (zlen buf) = iterate (rd_env buf env2) (zlen buf).
@@ -361,4 +409,23 @@ Proof.
   - destruct (Z_lt_le_dec (zlen buf) 4) as [Hs|Hl].
     + rewrite !short_no by exact Hs. reflexivity.
     + rewrite !(frame_verify_agrees buf _ Hwf (agrees_env buf _) Hl). reflexivity.
+Qed.
+
+(* the element decoders called directly on a byte range: nothing outside the range enters *)
+Lemma decoders_env_indep : forall buf env1 env2, wfbytes buf ->
+  get_rsn_info (rd_env buf env1) 0 (zlen buf) = get_rsn_info (rd_env buf env2) 0 (zlen buf) /\
+  get_wpa_info (rd_env buf env1) 0 (zlen buf) = get_wpa_info (rd_env buf env2) 0 (zlen buf) /\
+  (forall b, handle_msft (rd_env buf env1) b 0 (zlen buf) = handle_msft (rd_env buf env2) b 0 (zlen buf)).
+Proof.
+  intros buf env1 env2 Hwf. pose proof (zlen_nonneg buf) as Hn. split; [|split].
+  - rewrite !(rsn_decoder_whole buf _ Hwf (agrees_env buf _)). reflexivity.
+  - rewrite !(wpa_decoder_whole buf _ Hwf (agrees_env buf _)). reflexivity.
+  - intros b. unfold handle_msft.
+    change sizeof_libwifi_tag_vendor_header with 4. change suite_len with 4.
+    destruct (zlen buf <? 4) eqn:C4; [reflexivity|].
+    rewrite !(agrees_env buf _) by lia. cbn [bind].
+    destruct (_ =? c_MICROSOFT_OUI_TYPE_WPA); [|reflexivity].
+    destruct (zlen buf <? 4 + 2 + 4) eqn:C10; [reflexivity|].
+    pose proof (fun env => wpa_decode_exact buf (rd_env buf env) 0 (zlen buf) Hwf (agrees_env buf env) ltac:(lia) Hn ltac:(lia)) as H.
+    change (0 + 4) with 4 in *. change (0 + zlen buf) with (zlen buf) in *. rewrite !H. reflexivity.
 Qed.
